@@ -40,7 +40,7 @@ func runC11(c *Ctx) {
 				key := siteKey(c.P, m.d, s, si, cls)
 				fn := core.FuncName(s.Fn)
 				pos := s.Alloc.Pos()
-				pstr := pi.Path.String()
+				pstr := pi.Desc
 				eqs := pathEqs(pi.Atoms)
 				var disc []string
 				if m.roles.RunID != "" && findEq(eqs, isEchoID, m.roles.RunID) != nil {
@@ -55,7 +55,7 @@ func runC11(c *Ctx) {
 					}
 				}
 				// TCP SYN: IP-ID from the per-run AllocPacketID block is part of the lookup key
-				for _, l := range findLookups(m.d, pi.Atoms) {
+				for _, l := range findLookups(c.P, m.d, pi.Atoms) {
 					for _, ka := range l.Call.Args[1:] {
 						if access(unwrap(ka), ".GetICMPInfo", "0", "WrappedPacketID") && m.roles.Variant == "syn" {
 							disc = append(disc, "lookup keyed by the quoted IP-ID (allocated per run by AllocPacketID)")
